@@ -126,6 +126,11 @@ func (fv *FV) evalSpec(env *SpecEnv, e SExpr) Val {
 		case "-":
 			return Val{T: fmt.Sprintf("(- %s)", v.T), S: v.S, Go: v.Go}
 		case "*":
+			if v.Go != nil {
+				if n, ok := types.Unalias(v.Go).(*types.Named); ok && n.Obj().Pkg() != nil && n.Obj().Pkg().Path() == "sync/atomic" && n.Obj().Name() == "Pointer" && n.TypeArgs().Len() == 1 {
+					return fv.specDeref(env, v.T, n.TypeArgs().At(0))
+				}
+			}
 			if v.Go == nil || !isPointer(v.Go) {
 				fv.unsupported("spec: deref of non-pointer")
 			}
@@ -471,6 +476,9 @@ func (fv *FV) specCall(env *SpecEnv, x SCall) Val {
 	case "mem":
 		s, v := arg(0), arg(1)
 		return Val{T: fmt.Sprintf("(%s %s %s)", fv.sess.fnMem(seqElemSort(s.S)), s.T, v.T), S: "Bool"}
+	case "index":
+		sq, v := arg(0), arg(1)
+		return Val{T: fmt.Sprintf("(%s %s %s)", fv.sess.fnIndex(seqElemSort(sq.S)), sq.T, v.T), S: "Int", Go: types.Typ[types.Int]}
 	case "nodup":
 		s := arg(0)
 		return Val{T: fmt.Sprintf("(%s %s)", fv.sess.fnNodup(seqElemSort(s.S)), s.T), S: "Bool"}
